@@ -22,7 +22,8 @@ def _counters(lines, verdicts):
          "unprepared_on_later_page": 0, "slow_consumer_error_on_page_ge2_seen_by_caller": 0,
          "timeout_cases": 0, "early_timeout_accepted": 0, "not_run": 0,
          "single_page_cases": 0, "single_page_with_caller_state_and_retry": 0,
-         "coordinator_checked_multi_node_multi_page": 0, "forced_early_timeout_cases": 0}
+         "coordinator_checked_multi_node_multi_page": 0, "forced_early_timeout_cases": 0,
+         "timeout_with_early_drop": 0}
     for ln, v in zip(lines, verdicts):
         parts = ln.split("|")
         case = parts[0].split()
@@ -62,6 +63,8 @@ def _counters(lines, verdicts):
             c["timeout_cases"] += 1
         if case[0] == "E":
             c["forced_early_timeout_cases"] += 1
+        if case[0] == "T" and case[3].startswith("drop"):
+            c["timeout_with_early_drop"] += 1
         if case[0] == "P":
             c["single_page_cases"] += 1
             if case[3] != "stN" and len(parts) > 1 and parts[1].split()[-1].count(",") >= 1:
@@ -101,7 +104,7 @@ _FLOORS = {"drop_cases": 40, "connection_pager_cases": 40, "cases_with_nonretrie
            "slow_consumer_error_on_page_ge2_seen_by_caller": 10, "timeout_cases": 5,
            "cases_connection_reset": 2, "requests_seen": 1500, "single_page_cases": 25,
            "single_page_with_caller_state_and_retry": 5, "coordinator_checked_multi_node_multi_page": 100,
-           "early_timeout_accepted": 1}
+           "early_timeout_accepted": 1, "timeout_with_early_drop": 1}
 
 
 def _post(lines, verdicts):
@@ -114,7 +117,7 @@ def _post(lines, verdicts):
         return out
     scale = max(1, len(lines) // 1500)
     # families of fixed size do not grow with the random part of a thorough run
-    fixed_big = {"timeout_cases": 14, "early_timeout_accepted": 3, "single_page_cases": 150, "single_page_with_caller_state_and_retry": 30,
+    fixed_big = {"timeout_cases": 14, "early_timeout_accepted": 3, "timeout_with_early_drop": 2, "single_page_cases": 150, "single_page_with_caller_state_and_retry": 30,
                  "slow_consumer_error_on_page_ge2_seen_by_caller": 60}
     for k, floor in _FLOORS.items():
         need = floor * scale if k not in fixed_big else (floor if scale == 1 else fixed_big[k])
@@ -148,7 +151,7 @@ SPEC = {
              "(retried or not), plan exhaustion, Void / non-RESULT replies, early 'no more pages'; 1..4 nodes; consumer = full "
              "read F, slow S, every Pending poll cancelled J, early drop D) + 16 'slow consumer x error on a page >= 2' (S) + 16 "
              "'prepared statement evicted on a later page' (U) + 30 single-page requests resumed with a caller-supplied paging "
-             "state (P: query_single_page / execute_single_page) + 4 client-timeout cases (T) + 2 forced early-timeout cases (E: "
+             "state (P: query_single_page / execute_single_page) + 4 client-timeout cases (T; one of them with an early drop) + 2 forced early-timeout cases (E: "
              "400 ms client timeout, a reply before the scripted T delayed by 2 s). thorough = 20 417 cases (39 + 20 000 random "
              "with 0..400 rows / 1..24 pages + 80 + 80 + 200 + 12 + 6). Observed: the items the caller saw and, from the mock's "
              "trace, (Rows pages served before, paging_state, mock node) of every QUERY/EXECUTE of the statement. "
@@ -159,15 +162,15 @@ SPEC = {
         "mocknode (harness/src/mocknode): serves the scripted pages/faults and records every frame; the runner "
         "derives from its trace the paging_state and the receiving node of every QUERY/EXECUTE of the statement and the "
         "number of Rows pages served before it",
-        "kind P (single page): the driver compares result and request count with single_run in OCaml; the sentence "
-        "'every attempt carries the caller's state' is evaluated by the driver itself (no Coq acceptor)",
+        "kind P (single page): ok only through the extracted accept_single (C07_accept_single_sound), viol only when the "
+        "extracted prop_single_ok fails; the driver only parses the observation",
         "spec_page mirrors the retry loop clause by clause with a target count instead of targets; the independent part of "
-        "the specification is the stream level (`expected`)",
+        "the specification is the stream level (`expected`); C07_page_outcome_closed_form proves it equal to a loop-free form",
         "harness ScriptedPolicy (RetryPolicy whose decision is carried in the scripted error message) and the table of "
         "DefaultRetryPolicy decisions used by the generator (the policy itself is C06's subject)",
         "expected (strict) / spec_state / spec_error_stream are the property text transcribed; they are anchored by "
         "pinned Examples on accepting and rejecting observations",
-        "hook scylla::client::verif_pager::execute_iter_on_new_connection (/repo commit bee67f4, pass-through)",
+        "hook scylla::client::verif_pager::execute_iter_on_new_connection (repository commit bee67f4, pass-through)",
     ],
     "assumptions": [
         "one execution fiber per page (no speculative execution policy configured: C13 covers speculation)",
@@ -178,8 +181,8 @@ SPEC = {
         "accepts every prefix between 'pages the consumer needed' and 'two pages more' (C07_read_ahead)",
         "plans_ok: every plan enumerates the same node set (the driver uses the synthetic plan [0..n-1]; 1 shard per node)",
         "verdicts: ok = accept_full / accept_drop (sound for prop_*_ok when plans_ok, outside class O1; drop: constructor "
-        "succeeded), accept_full_timeout (sound for the script with the timeout moved earlier), P: exact comparison in the "
-        "driver, or `ok not-run` (counted, capped at max(2, lines/200)); inside class O1 the property predicate is evaluated",
+        "succeeded), accept_full_timeout / accept_drop_timeout (sound for the script with the timeout moved earlier), P: accept_single, "
+        "or `ok not-run` (counted, capped at max(2, lines/200)); inside class O1 the property predicate is evaluated",
         "wall-clock constants: T cases 4 s client timeout (earlier strike tolerated), E cases 400 ms vs a 2 s delayed reply, "
         "watchdog 300 s per case (hang -> viol when a stream is expected), wait_pools 10 s after reset cases, settle loop "
         "<= 400 ms after drop / timeout cases, hook connect_timeout 5 s (-> not-run)",
